@@ -1,7 +1,7 @@
 (* C01 — Result models accept and preserve every conformant response.  Property theorems only. *)
 From Coq Require Import List String Ascii Bool ZArith.
 From AC Require Import Base.Strs Base.Sexp Base.Json Gql.Schema Gql.Exec Py.Ann Py.Pydantic
-     Model.Names Model.Results Proofs.ResultsP Proofs.ResultsRunP Proofs.ResultsObjP.
+     Model.Names Model.Results Proofs.ResultsP Proofs.ResultsRunP Proofs.ResultsAbsP Proofs.ResultsObjP.
 Import ListNotations.
 Local Open Scope string_scope.
 Local Open Scope list_scope.
@@ -25,12 +25,14 @@ Definition C01_preserves_full : Prop :=
         @skip/@include flags, __typename), unconditional inline fragments and unpacked fragment spreads
         whose type condition is the object type itself or one of its interfaces / unions (exactly those
         that resolve and collect flatten alike: flatten, C01_flattenings_agree), leaf fields of scalar /
-        enum type and composite fields of OBJECT type nested to any depth, any list / non-null wrappers;
+        enum type, composite fields of OBJECT type and (with cov = true) of INTERFACE / UNION type (abs_ok:
+        __typename selected directly, inline fragments only, every possible runtime type's variant again
+        in the sub-language) nested to any depth, any list / non-null wrappers;
         pairwise distinct response keys per flattened selection set; no Python field name (when it differs from its response key) equal to another
         response key of the same set.  Ghost-output guards: no class skipped by the _public_names check
         (third component of op_parse = false), no generated class called BaseModel.
         The classes are all_classes' (operation module + fragments module).
-        Fuel: conformance at ANY fuel fc; validation at every fuel n >= fuel + 1 (the generator's fuel). ---- *)
+        Fuel: conformance at ANY fuel fc; validation at every fuel n >= fuel + 2 (the generator's fuel). ---- *)
 Theorem C01_accepts_partial :
   forall C S frs fuel kind name sels root own pub' cls g cov fc j n,
     root_type_name S kind = Ok root ->
@@ -38,7 +40,7 @@ Theorem C01_accepts_partial :
     all_classes fuel C S frs (DOp kind name [] sels) = Ok cls ->
     op_ok g cov C S frs root sels = true -> no_basemodel own = true ->
     conf_op fc S frs root sels j = true ->
-    n >= fuel + 1 ->
+    n >= fuel + 2 ->
     accepts n cls (schema_enums S) (AClass (pascal_s name)) j = true.
 Proof. exact op_accepts. Qed.
 Print Assumptions C01_accepts_partial.
@@ -52,7 +54,7 @@ Theorem C01_preserves_partial :
     all_classes fuel C S frs (DOp kind name [] sels) = Ok cls ->
     op_ok g true C S frs root sels = true -> no_basemodel own = true ->
     conf_op fc S frs root sels j = true -> jwf j = true ->
-    n >= fuel + 1 ->
+    n >= fuel + 2 ->
     covers n cls (AClass (pascal_s name)) j = true.
 Proof. exact op_covers. Qed.
 Print Assumptions C01_preserves_partial.
@@ -60,25 +62,56 @@ Print Assumptions C01_preserves_partial.
 (* the same at the level of one generated class (any nesting depth below it), for any class table that
    resolves the generated names to the generated classes *)
 Theorem C01_object_accepts :
-  forall C S frs fuel g cov nested pub cn tn sels tv out pub' cs fc kv n,
-    parse_type_def fuel C S frs pub cn tn sels false [] tv = Ok (out, pub', false) ->
-    sels_ok g cov C S frs nested tn sels = true -> tv_ok nested tn tv -> table_ok cs out ->
-    conf_obj_with (conf_val fc S frs) S tn (collect_scopes fc S frs tn [(false, sels)]) kv = true ->
-    n >= fuel + 1 ->
+  forall C S frs fuel g cov nested pub cn rt r sels at_ tv out pub' cs fc kv n,
+    parse_type_def fuel C S frs pub cn r sels at_ [] tv = Ok (out, pub', false) ->
+    sels_ok g cov C S frs nested rt r sels = true -> tv_ok nested rt tv ->
+    (at_ = true -> has_typename sels = true) -> table_ok cs out ->
+    conf_obj_with (conf_val fc S frs) S rt (collect_scopes fc S frs rt [(false, sels)]) kv = true ->
+    n >= fuel + 2 ->
     accepts n cs (schema_enums S) (AClass cn) (JObj kv) = true.
 Proof. exact obj_accepts. Qed.
 Print Assumptions C01_object_accepts.
 
 Theorem C01_object_covers :
-  forall C S frs fuel g nested pub cn tn sels tv out pub' cs fc kv n,
-    parse_type_def fuel C S frs pub cn tn sels false [] tv = Ok (out, pub', false) ->
-    sels_ok g true C S frs nested tn sels = true -> tv_ok nested tn tv -> table_ok cs out ->
-    conf_obj_with (conf_val fc S frs) S tn (collect_scopes fc S frs tn [(false, sels)]) kv = true ->
+  forall C S frs fuel g nested pub cn rt r sels at_ tv out pub' cs fc kv n,
+    parse_type_def fuel C S frs pub cn r sels at_ [] tv = Ok (out, pub', false) ->
+    sels_ok g true C S frs nested rt r sels = true -> tv_ok nested rt tv ->
+    (at_ = true -> has_typename sels = true) -> table_ok cs out ->
+    conf_obj_with (conf_val fc S frs) S rt (collect_scopes fc S frs rt [(false, sels)]) kv = true ->
     jwf (JObj kv) = true ->
-    n >= fuel + 1 ->
+    n >= fuel + 2 ->
     covers n cs (AClass cn) (JObj kv) = true.
 Proof. exact obj_covers. Qed.
 Print Assumptions C01_object_covers.
+
+(* the ingredient for abstract positions: among the classes generated for the related types of an
+   interface / union typed field, the discriminated union picks the class of the variant of the runtime
+   type (the one related type whose typename literal contains it) *)
+Theorem C01_variant_literal :
+  forall S base sub rel rt,
+    (exists ifs fs, lookup_type S base = Some (DInterface ifs fs)) \/
+    (exists ms, lookup_type S base = Some (DUnion ms) /\ forallb (is_object S) ms = true) ->
+    mem base (possible_types S base) = false ->
+    map r_type rel = abs_names S base sub ->
+    In rt (possible_types S base) ->
+    let t0 := variant (abs_names S base sub) base rt in
+    In t0 (abs_names S base sub) /\ In rt (typename_values S rel t0) /\
+    (forall t, In t (abs_names S base sub) -> In rt (typename_values S rel t) -> t = t0).
+Proof. exact tv_variant. Qed.
+Print Assumptions C01_variant_literal.
+
+Theorem C01_union_picks_variant :
+  forall (mro : string -> option (list pfield)) (cname : string -> string)
+         (tvs : string -> list string) names rt t0,
+    In t0 names -> In rt (tvs t0) ->
+    (forall t, In t names -> In rt (tvs t) -> t = t0) ->
+    (forall t, In t names -> exists pfl, mro (cname t) = Some pfl /\
+         forall pf vs, In pf pfl -> p_ann pf = ALit vs -> vs = sort_strings (tvs t)) ->
+    (exists pfl0, mro (cname t0) = Some pfl0 /\
+         typename_literal (last_wins pfl0) = Some (sort_strings (tvs t0))) ->
+    union_pick mro (map (fun t => AClass (cname t)) names) rt = Some (AClass (cname t0)).
+Proof. exact union_pick_variant. Qed.
+Print Assumptions C01_union_picks_variant.
 
 (* without a skipped class the generated class names are pairwise distinct (so the class table of the
    module resolves every generated name to the class generated for it) *)
@@ -201,10 +234,15 @@ Proof. eexists. split; [vm_compute; reflexivity|]. vm_compute. repeat split. Qed
 
 (* ---- non-vacuity of the partial theorems: nested (two levels of objects), aliased, list-wrapped,
         conditional fields, enum, __typename literal, a spread of a fragment on an interface and nested
-        inline fragments (flattened) ---- *)
+        inline fragments (flattened), an interface-typed field with a variant (Node: base class + User class)
+        and a union-typed field (Hit = User | Bot) ---- *)
 Definition SX : schema :=
   {| s_types := [("Query", DObject [] [("user", TNamed "User");
-                                       ("users", TNonNull (TList (TNonNull (TNamed "User"))))]);
+                                       ("users", TNonNull (TList (TNonNull (TNamed "User"))));
+                                       ("nodes", TList (TNamed "Node"));
+                                       ("found", TNamed "Hit")]);
+                 ("Bot", DObject ["Node"] [("id", TNonNull (TNamed "ID")); ("version", TNamed "Int")]);
+                 ("Hit", DUnion ["User"; "Bot"]);
                  ("Node", DInterface [] [("id", TNonNull (TNamed "ID"))]);
                  ("User", DObject ["Node"] [("id", TNonNull (TNamed "ID")); ("fullName", TNamed "String");
                                       ("role", TNonNull (TNamed "Role")); ("address", TNamed "Address");
@@ -221,7 +259,14 @@ Definition selsX : list sel :=
             SField (Some "homeAddress") "address" false []
               (Some [SField None "city" false [] None; SField None "zip" true [] None]);
             SField None "tags" false [] None]);
-   SField None "user" true [] (Some [SField None "id" false [] None])].
+   SField None "user" true [] (Some [SField None "id" false [] None]);
+   SField None "nodes" false []
+     (Some [SField None "__typename" false [] None; SField None "id" false [] None;
+            SInline (Some "User") false [SField None "role" false [] None]]);
+   SField None "found" false []
+     (Some [SField None "__typename" false [] None;
+            SInline (Some "Bot") false [SField (Some "v") "version" false [] None];
+            SInline (Some "User") false [SField None "id" false [] None]])].
 Definition frsX : list fragdef :=
   [{| fr_name := "NodeBits"; fr_on := "Node"; fr_mixins := [];
       fr_sel := [SField None "id" false [] None] |}].
@@ -230,7 +275,10 @@ Definition jX : json :=
                                ("homeAddress", JObj [("city", JStr "X")]);
                                ("tags", JArr [JStr "a"; JNull])];
                          JObj [("__typename", JStr "User"); ("id", JStr "2"); ("name", JNull);
-                               ("role", JStr "USER"); ("homeAddress", JNull); ("tags", JNull)]])].
+                               ("role", JStr "USER"); ("homeAddress", JNull); ("tags", JNull)]]);
+        ("nodes", JArr [JObj [("__typename", JStr "Bot"); ("id", JStr "b1")];
+                        JObj [("__typename", JStr "User"); ("id", JStr "u1"); ("role", JStr "USER")]; JNull]);
+        ("found", JObj [("__typename", JStr "Bot"); ("v", JInt 3)])].
 
 Example C01_partial_hypotheses_satisfiable :
   exists own pub' cls,
@@ -239,7 +287,7 @@ Example C01_partial_hypotheses_satisfiable :
     all_classes 10 C0 SX frsX (DOp "query" "GetPeople" [] selsX) = Ok cls /\
     op_ok 10 true C0 SX frsX "Query" selsX = true /\ no_basemodel own = true /\
     conf_op 10 SX frsX "Query" selsX jX = true /\ jwf jX = true /\
-    List.length own = 4 /\
+    List.length own = 8 /\
     accepts 11 cls (schema_enums SX) (AClass (pascal_s "GetPeople")) jX = true /\
     covers 11 cls (AClass (pascal_s "GetPeople")) jX = true.
 Proof.
